@@ -54,7 +54,7 @@ def run_case(ctx, g, rng):
     growth_sweep(ctx, rng, rng.choice([":", ":", "/"]), g)
     long_lived(ctx, rng, rng.choice([":", "/"]), g)
     d = rng.choice(gen.DELIMS)
-    recs = gen.records(rng, d, 1, 5)
+    recs = gen.records(rng, d, 0, 5)
     if g % 2 == 0:
         recs = make_prefix_free(recs) or recs
     if g % 3 == 1:
@@ -121,7 +121,7 @@ def run_case(ctx, g, rng):
             call(c.standardize_prefix, x)
             call(c.standardize_curie, x + d + "1")
             call(c.standardize_uri, x)
-    if g % 151 == 0:
+    if g % 151 == 0 and known:
         p = known[-1]
         probe.sample({**w, "built": how, "prefix": p, "standardize_prefix": call(c.standardize_prefix, p),
                       "standardize_curie": call(c.standardize_curie, p + d + "1")})
